@@ -124,7 +124,7 @@ MANIFEST = {
             "in the instance's own reset mask, distinctness when enough feasible starts exist, incl. OP instances with "
             "unreachable first moves); AttentionModelPolicy multistart/multisample forwards on 11 envs where every output row "
             "is re-attributed to its instance by the independent objective and select_best is compared with the "
-            "candidates tapped inside the same call. Exploration over B x k x nestings x instances.",
+            "candidates tapped inside the same call. Exploration over B x k x nestings x instances. Also: start audits on instances of another size than the env generator's, the random start rule counted over all valid actions, best-of-k through the evaluators of rl4co.tasks.eval.",
     "note": "select_best tap: the strategy instance is captured by wrapping the name get_decoding_strategy in "
             "rl4co.models.common.constructive.base; zero tap hits make the check inconclusive.",
     "technique": "runtime monitoring: tagged-data tracing through the real replication ops + taps on the decoding strategy, checked by an independent per-instance objective",
